@@ -698,6 +698,9 @@ func (g *gen) plain(c int, id int, t int) *Obj {
 		o.Size = g.size()
 	case 1, 2:
 		o.Assoc = g.oid()
+		if o.Assoc == id { // an object cannot name itself (its ID is the hash of its header)
+			o.Assoc = 1 + id%nOID
+		}
 		if g.r.p(2) {
 			o.Assoc = 0 // malformed: no target
 		}
@@ -705,57 +708,80 @@ func (g *gen) plain(c int, id int, t int) *Obj {
 	return o
 }
 
-// shape draws the header of (c, id). Relations point to other IDs of the same
-// container: parents mostly among 1..4, first IDs 5..6, split IDs 1..2.
+// shape draws the header of (c, id). The family relations are layered so that
+// they cannot be cyclic (object IDs are header hashes; a cyclic family cannot
+// exist and collectChildren would not terminate on one):
+//   1..4   roots: plain objects, rarely with a parent among smaller roots
+//   5..6   first children (the IDs used as split.first), parent among the roots
+//   7..10  plain objects, EC parts (parent: any smaller ID), v2 split children
+//          and links (first in 5..6, parent among the roots), v1 split children
 func (g *gen) shape(c, id int) *Obj {
 	if g.profile == "s1" {
 		t := []int{0, 0, 0, 0, 1, 1, 2, 2, 3}[g.r.n(9)]
 		return g.plain(c, id, t)
 	}
-	par := func() int {
-		if g.r.p(85) {
-			return 1 + g.r.n(4)
+	root := func() int { return 1 + g.r.n(4) }
+	plain := func() *Obj {
+		switch k := g.r.n(100); {
+		case k < 50:
+			return g.plain(c, id, 0)
+		case k < 72:
+			return g.plain(c, id, 1)
+		case k < 94:
+			return g.plain(c, id, 2)
+		default:
+			return g.plain(c, id, 3)
 		}
-		return g.oid()
+	}
+	if id <= 4 {
+		o := plain()
+		if id > 1 && g.r.p(12) {
+			o.ParID = 1 + g.r.n(id-1)
+			if g.r.p(50) {
+				o.ECR, o.ECI = g.r.n(2), g.r.n(3)
+			}
+		}
+		return o
+	}
+	if id <= 6 {
+		o := g.plain(c, id, 0)
+		if g.r.p(50) {
+			o.ParID = root()
+		}
+		return o
 	}
 	switch k := g.r.n(100); {
-	case k < 28:
-		return g.plain(c, id, 0)
-	case k < 40:
-		return g.plain(c, id, 1)
-	case k < 52:
-		return g.plain(c, id, 2)
-	case k < 55:
-		return g.plain(c, id, 3)
-	case k < 70: // EC part with parent header
+	case k < 35:
+		return plain()
+	case k < 60: // EC part
 		o := g.plain(c, id, 0)
-		o.ParID = par()
+		o.ParID = 1 + g.r.n(id-1)
+		if g.r.p(70) {
+			o.ParID = 1 + g.r.n(6)
+		}
 		o.ECR = g.r.n(2)
 		o.ECI = g.r.n(3)
 		if g.r.p(5) {
 			o.ECI = -1
 		}
 		return o
-	case k < 83: // v2 split child: first ID; last child carries the parent header
+	case k < 75: // v2 split child
 		o := g.plain(c, id, 0)
 		o.First = 5 + g.r.n(2)
-		if g.r.p(10) {
-			o.First = id
-		}
 		if g.r.p(55) {
-			o.ParID = par()
+			o.ParID = root()
 		}
 		return o
-	case k < 91: // link object
+	case k < 85: // link object
 		o := g.plain(c, id, 3)
 		o.First = 5 + g.r.n(2)
-		o.ParID = par()
+		o.ParID = root()
 		return o
 	default: // v1 split child
 		o := g.plain(c, id, 0)
 		o.Split = 1 + g.r.n(2)
 		if g.r.p(60) {
-			o.ParID = par()
+			o.ParID = root()
 		}
 		if g.r.p(20) {
 			o.Size = 0
@@ -774,7 +800,7 @@ func (g *gen) mkCatalog() {
 	for c := 1; c <= nCnr; c++ {
 		for id := 1; id <= nOID; id++ {
 			o := g.cat[c][id]
-			if o.ParID > 0 && o.ParID != id && g.r.p(80) {
+			if o.ParID > 0 && o.ParID < id && g.r.p(80) {
 				o.Par = g.cat[c][o.ParID]
 			}
 		}
